@@ -111,8 +111,21 @@ for _op in ('bond', 'bond_stsei', 'bond_rewards'):
     OBLIGATIONS.append(('backed_%s_v2' % _op, _backed(_op)))
 
 
+def _withdraw_frame(ctx):
+    """WithdrawUnbonded (with a release) writes no pool, request or supply: world and replay of C01's release obligation"""
+    from checks.c01 import ob_release
+    return ob_release(1, 0, only={'release:pools'})(ctx)
+
+
+OBLIGATIONS.append(('frame_withdraw_unbonded', _withdraw_frame))
+
+
 def replay_any(v, run_scenario):
     key0 = v.get('key') or ':'
+    if key0.startswith('release:'):
+        from smir.replay import generic_replay
+        import checks.c01 as c1_
+        return generic_replay(c1_)(v, run_scenario)
     parts0 = key0.split(':')
     if len(parts0) > 1 and parts0[1] in ('books', 'full', 'bank', 'registered', 'nonzero', 'denom', 'holding', 'exact', 'nodelegate', 'noundelegate', 'total'):
         from checks.c02 import replay_any as r2
